@@ -2,7 +2,7 @@
 listed library lemma.  The statement is printed by Coq itself (Check), so what the Props file claims is exactly
 what the library proves; the file is committed and from then on only compiled."""
 import subprocess, re, sys, os
-COQ = os.path.join(os.path.dirname(os.path.dirname(os.path.abspath(__file__))), "coq")
+COQ = os.environ.get("OAS_COQ") or os.path.join(os.path.dirname(os.path.dirname(os.path.abspath(__file__))), "coq")      # OAS_COQ: a scratch copy of coq/ (dev time)
 Q = []
 for d in ("Model", "Float", "Real", "Spec", "Generated", "Props"):
     Q += ["-Q", os.path.join(COQ, d), "OAS"]
@@ -114,7 +114,7 @@ if __name__ == "__main__":
         c02(); sys.exit(0)
     if which == "C01":
         imports = ("Scalar Rops Sums Deriv Dual DualProofs Drag DragDeriv Stress StressDeriv StressProofs Transfer TransferDeriv Loads LoadsDeriv "
-                   "Functionals FunctionalsDeriv Aero AeroDeriv PG PGDeriv Beam BeamTables BeamDeriv Geom GeomDeriv Misc MiscDeriv MultiSec MultiSecDeriv Wingbox WingboxDeriv Small SmallDeriv")
+                   "Functionals FunctionalsDeriv Aero AeroDeriv PG PGDeriv Beam BeamTables BeamDeriv Geom GeomDeriv Misc MiscDeriv MultiSec MultiSecDeriv Wingbox WingboxDeriv Small SmallDeriv Mphys MphysDeriv")
         items = [
             ("C01_dual_number_tangent_is_the_partial_derivative", "DR_partial", "the meaning of every statement below: the tangent part of the dual-number evaluation is the coordinate partial derivative"),
             ("C01_seeded_coordinate", "DR_upd1", None),
@@ -123,7 +123,7 @@ if __name__ == "__main__":
             ("C01_TotalDrag", "total_drag_DR", None),
             ("C01_VonMisesTube", "vm_tube_DR", "structures/vonmises_tube.py, off zero bending rotation / zero stress"),
             ("C01_VonMisesWingbox", "vm_wingbox_DR", "structures/vonmises_wingbox.py (partials declared by complex step in the code)"),
-            ("C01_FailureKS", "ks_J_is_derivative" if False else "failure_exact_DR", "structures/failure_exact.py; FailureKS is C15_ks_reported_derivative"),
+            ("C01_FailureExact", "failure_exact_DR", "structures/failure_exact.py; FailureKS is C15_ks_reported_derivative"),
             ("C01_NonIntersectingThickness", "thickness_intersects_DR", None),
             ("C01_SectionPropertiesTube", "tube_section_DR", None),
             ("C01_ComputeNodes", "nodes_DR", None),
@@ -218,6 +218,8 @@ if __name__ == "__main__":
             ("C01_TotalLift", "total_lift_DR", None),
             ("C01_MultiCD", "multi_cd_DR", "integration/multipoint_comps.py, any number of flight points"),
             ("C01_PanelForcesSurf", "panel_forces_surf_DR", "the block of the global panel-force array of one surface (offset = panels of the surfaces before it)"),
+            ("C01_DemuxSurfaceMesh", "demux_DR", "mphys/demux_surface_mesh.py (matrix-free: the forward product applies the same gather to the perturbation; reverse mode = transpose is C19_mux_demux_adjoint)"),
+            ("C01_MuxSurfaceForces", "mux_DR", "mphys/mux_surface_forces.py, any number of surfaces"),
             ("C01_WingboxGeometry_twist_measure_refuted_at_zero_twist", "wg_theta_not_differentiable_at_zero_twist", "the hypothesis wg_twisted cannot be dropped: at an untwisted section (the default mesh) the twist measure is |twist|, which has no derivative; the code nevertheless reports one (finding F13, replayed on the implementation by the oracle WingboxGeometry.untwisted-sections)"),
         ]
         hdr = "C01 - analytic component derivatives equal the true derivatives.  Property theorems only (statements printed by Coq from the libraries Real/*Deriv.v).  DR g t0 p  :=  g t0 = fst p /\\ is_derive g t0 (snd p);  every theorem says: along ANY differentiable curve of the inputs, the dual-number evaluation of the component model gives the value and the derivative - hence every partial derivative (C01_dual_number_tangent_is_the_partial_derivative) and, by composition, every chain of components"
